@@ -1,8 +1,9 @@
 """C07 — resolver arguments conform to declared input types: the three coercion
 routes implement the same obligation table; scalar tables equal the spec's."""
 import ast
+import re
 
-from .. import shapes
+from .. import shapes, boolx
 from ..cfg import event_paths
 from ..model import AnalysisError, own_nodes, norm_stmt
 
@@ -108,22 +109,63 @@ def check(prog, run):
         loops.append((f, lp[0]))
     for f, lp in loops:
         var = lp.target.id
-        br = _absent_branches(lp, var)
-        shapes.require(br, "C07.O1: absent-member branch not found in %s" % f.qualname)
-        label, absent, present = br[0]
-        mod = ast.Module(body=absent, type_ignores=[])
-        uses_default = _contains(mod, lambda x: isinstance(x, ast.Attribute) and x.attr == "has_default_value" and ast.unparse(x.value) == var)
-        stores_default = _contains(mod, lambda x: isinstance(x, ast.Assign) and isinstance(x.value, ast.Attribute) and x.value.attr == "default_value"
-                                   and ast.unparse(x.value.value) == var and isinstance(x.targets[0], ast.Subscript))
-        r.instance("O-default %s (%s): consults has_default_value=%s stores default=%s" % (f.qualname, label, uses_default, stores_default))
-        if not (uses_default and stores_default):
+        # path form: the executions of the per-member loop body on which the member is absent from the provided values
+        # (a `name in provided` test is false, or the `except KeyError` handler of the lookup is entered)
+        body_fn = boolx.body_function(lp.body)
+
+        def absent_exits(has_default, nonnull, var=var, body_fn=body_fn, f=f):
+            def decide(t):
+                if re.match(r"^[\w.]+\.has_default_value$", t):
+                    return has_default
+                if re.match(r"^isinstance\([\w.]+, [\w.]*NonNullType\)$", t):
+                    return nonnull
+                return None
+            try:
+                _ev, exits = boolx.walk_under(body_fn, decide)
+            except ValueError as e:
+                raise AnalysisError("C07.O1: %s: %s" % (f.qualname, e))
+            out = []
+            for kind, st, env in exits:
+                absent = any(isinstance(h.type, ast.expr) and "KeyError" in ast.unparse(h.type) for h in env.get(boolx.HANDLERS, ()) if h.type is not None)
+                for a, v in env.get(boolx.TESTS, ()):
+                    if v is not False:
+                        continue
+                    try:
+                        e = ast.parse(a, mode="eval").body
+                    except SyntaxError:
+                        continue
+                    if isinstance(e, ast.Compare) and len(e.ops) == 1 and isinstance(e.ops[0], ast.In):
+                        absent = True
+                if absent:
+                    out.append((kind, st, env))
+            return out
+        ex_default = absent_exits(True, None)
+        shapes.require(ex_default, "C07.O1: no execution of the member loop of %s has the member absent" % f.qualname)
+        bad_default = []
+        for kind, st, env in ex_default:
+            atoms = {a: b for a, b in env.items() if a not in boolx.META}
+            stored = False
+            for x in env.get(boolx.STMTS, ()):
+                if isinstance(x, ast.Assign) and isinstance(x.targets[0], ast.Subscript):
+                    v = boolx.path_value(env.get(boolx.STMTS, ()), x, x.value, atoms)
+                    if isinstance(v, ast.Attribute) and v.attr == "default_value" and ast.unparse(v.value) == var:
+                        stored = True
+            if not stored:
+                bad_default.append((kind, st))
+        r.instance("O-default %s: %d absent-member executions with a declared default, %d do not store it" % (f.qualname, len(ex_default), len(bad_default)))
+        if bad_default:
             run.report(r, "%s:%s:O-default" % (f.module.name, f.qualname), f.where(lp),
-                       "when a declared member is absent (%s) its declared default is not filled in: the same input given inline "
-                       "and through a variable yields different resolver arguments" % label)
-        req = _contains(mod, lambda x: isinstance(x, ast.Call) and ast.unparse(x.func) == "isinstance" and "NonNullType" in ast.unparse(x.args[1])) and \
-            _contains(mod, lambda x: isinstance(x, ast.Raise) or (isinstance(x, ast.Call) and isinstance(x.func, ast.Attribute) and x.func.attr == "append" and "Error" in ast.unparse(x)))
-        r.instance("O-required %s: %s" % (f.qualname, req))
-        if not req:
+                       "when a declared member is absent its declared default is not filled in on every path: the same input given inline "
+                       "and through a variable yields different resolver arguments")
+        ex_req = absent_exits(False, True)
+        bad_req = []
+        for kind, st, env in ex_req:
+            rejected = kind == "raise" or any(isinstance(c.func, ast.Attribute) and c.func.attr == "append" and "Error" in ast.unparse(c)
+                                              for c in env.get(boolx.CALLS, ()))
+            if not rejected:
+                bad_req.append((kind, st))
+        r.instance("O-required %s: %d absent required-member executions, %d not rejected" % (f.qualname, len(ex_req), len(bad_req)))
+        if bad_req or not ex_req:
             run.report(r, "%s:%s:O-required" % (f.module.name, f.qualname), f.where(lp), "an absent member of NonNull type without default is not rejected")
         # keys
         pyname_vars = {n.targets[0].id for n in ast.walk(lp) if isinstance(n, ast.Assign) and isinstance(n.targets[0], ast.Name)
@@ -391,7 +433,7 @@ def check_default_only_when_absent(prog, run, rule_id):
                     if key in seen:
                         continue
                     seen.add(key)
-                    cond = ", ".join("%s=%s" % kv for kv in sorted(env.items()) if kv[0] not in (boolx.CALLS, boolx.STMTS))
+                    cond = ", ".join("%s=%s" % kv for kv in sorted(env.items()) if kv[0] not in boolx.META)
                     run.report(r, "%s:%s:default-for-provided-value" % (modname, fname), f.where(n),
                                "`%s` uses the declared default although the name is present in the provided values (when %s): a value "
                                "explicitly given as null is replaced by the default instead of being delivered / rejected as null" % (key, cond))
